@@ -21,6 +21,6 @@ if [ -z "${SKIP_TESTS:-}" ]; then
   rm -f /tmp/mut_test.$$.log
 fi
 for i in $id; do
-  (cd /verif && VERIF_REPO=$R ./run.sh "$i" "$tier" 2>&1 | grep -a -E "^(VIOLATION|KNOWN|CHECK-BROKEN|C[0-9]+ )|class=" | head -${MUT_LINES:-8}; echo "$i exit=${PIPESTATUS[0]}")
+  (cd /verif && VERIF_EVIDENCE_DIR=/tmp/mut_evidence VERIF_REPO=$R ./run.sh "$i" "$tier" 2>&1 | grep -a -E "^(VIOLATION|KNOWN|CHECK-BROKEN|C[0-9]+ )|class=" | head -${MUT_LINES:-8}; echo "$i exit=${PIPESTATUS[0]}")
 done
 if [ -n "${MUT_INPLACE:-}" ]; then git -C /repo checkout -- . ; git -C /repo status --short | head; else git -C /repo worktree remove --force $R; fi
